@@ -1,6 +1,7 @@
 (* C12 — log-encoding covers exactly the integer range. *)
 Require Import Ommx.Num Ommx.Poly Ommx.Msg Ommx.Eval Ommx.Tree Ommx.Arith Ommx.Inst
-        Ommx.Transform Ommx.TransformProofs Ommx.LogEncProofs.
+        Ommx.InstProofs Ommx.Transform Ommx.TransformProofs Ommx.LogEncProofs Ommx.Subst Ommx.SubstProofs Ommx.SubstInst
+        Ommx.LogEncPath.
 From Coq Require Import String.
 Close Scope string_scope. Open Scope list_scope. Open Scope Qc_scope.
 
@@ -52,3 +53,65 @@ Print Assumptions C12_fresh.
 
 Example C12_nonvacuous : le_coeffs 10 = [1; 2; 4; 3]%N /\ le_nbits 10 = 4%nat.
 Proof. vm_compute. split; reflexivity. Qed.
+
+
+(* ---------------------------------------------------------------------------------------------
+   THE DRIVER PATH (LogEncPath.v), C12 composed with C04: log_encode x, register the binaries,
+   substitute x := E, evaluate at ANY 0/1 assignment of the fresh binaries (extended by values of the
+   other remaining variables): x is reported with an integer of [ceil l, floor u] -- the value of E at
+   the bits --, objective and every constraint have the value of the ORIGINAL functions at the
+   reported state; conversely every integer of the range is the value of E at some bit assignment. *)
+Theorem C12_path_eval : forall tiny, tiny_exact tiny -> forall I id v l u E bits J s sol bs,
+  find_dv id (i_dvs I) = Some v -> dv_kind v = KIND_INTEGER -> dv_bound v = Some (Fin l, Fin u) ->
+  (qceil l < qfloor u)%Z ->
+  let K := Z.to_N (qfloor u - qceil l) in
+  let base := next_id (i_dvs I) in
+  log_encode tiny I id = inr (E, bits) ->
+  inst_substitute tiny (add_dvs I bits) [(id, FLin E)] = Some J ->
+  NoDup (dkeys (i_deps I)) ->
+  (forall d, d = id \/ In d (dkeys (i_deps I)) -> sget (insert_subst (i_dvs I) s) d = None) ->
+  sext s (insert_subst (i_dvs I) s) ->
+  List.length bs = le_nbits K -> assigns_bits base bs s ->
+  inst_eval J s = Some sol ->
+  let z := (qceil l + Z.of_N (dot (le_coeffs K) bs))%Z in
+  (qceil l <= z <= qfloor u)%Z /\
+  sext s (so_state sol) /\
+  sget (so_state sol) id = Some (qz z) /\
+  (exists ids, fn_eval (FLin E) s = Some (qz z, ids)) /\
+  (forall rho, agrees rho (so_state sol) -> rho id = qz z /\ denote (FLin E) rho = qz z) /\
+  (forall d h, In (d, h) (i_deps I) -> d <> id ->
+     exists w, sget (so_state sol) d = Some w /\ forall rho, agrees rho (so_state sol) -> w = denote h rho) /\
+  (forall rho, agrees rho (so_state sol) -> so_objective sol = denote (fn_or_zero (i_obj I)) rho) /\
+  (exists ea er, so_evaluated sol = ea ++ er /\
+     Forall2 (fun c e => reports_at c None (so_state sol) e) (i_cs I) ea /\
+     Forall2 (fun r e => reports_removed_at r (so_state sol) e) (i_rs I) er /\
+     (so_feasible_relaxed sol = true <-> Forall holds ea) /\
+     (so_feasible sol = true <-> Forall holds (ea ++ er))) /\
+  so_dvs sol = i_dvs I ++ bits.
+Proof. exact log_encode_substitute_eval. Qed.
+Print Assumptions C12_path_eval.
+
+Theorem C12_path_cover : forall tiny, tiny_exact tiny -> forall I id v l u E bits,
+  find_dv id (i_dvs I) = Some v -> dv_kind v = KIND_INTEGER -> dv_bound v = Some (Fin l, Fin u) ->
+  (qceil l < qfloor u)%Z ->
+  let K := Z.to_N (qfloor u - qceil l) in
+  let base := next_id (i_dvs I) in
+  log_encode tiny I id = inr (E, bits) ->
+  forall z : Z, (qceil l <= z <= qfloor u)%Z ->
+  exists bs, List.length bs = le_nbits K /\
+    z = (qceil l + Z.of_N (dot (le_coeffs K) bs))%Z /\
+    (exists ids, fn_eval (FLin E) (bits_state base bs) = Some (qz z, ids)) /\
+    (forall s, assigns_bits base bs s -> exists ids, fn_eval (FLin E) s = Some (qz z, ids)) /\
+    (forall rho, reads_bits base bs rho -> denote (FLin E) rho = qz z) /\
+    (forall J s sol,
+       inst_substitute tiny (add_dvs I bits) [(id, FLin E)] = Some J ->
+       NoDup (dkeys (i_deps I)) ->
+       (forall d, d = id \/ In d (dkeys (i_deps I)) -> sget (insert_subst (i_dvs I) s) d = None) ->
+       sext s (insert_subst (i_dvs I) s) ->
+       assigns_bits base bs s -> inst_eval J s = Some sol ->
+       sget (so_state sol) id = Some (qz z)).
+Proof. exact log_encode_substitute_cover. Qed.
+Print Assumptions C12_path_cover.
+Check bits_state_hyps.
+Check log_encode_substitute_nonvacuous.
+Print Assumptions log_encode_substitute_nonvacuous.
